@@ -146,8 +146,7 @@ class PythonConstructRenderer:
 
         if description:
             # Sanitize description for use within a triple-double-quoted string for the actual docstring
-            safe_desc_content = description.replace("\\", "\\\\")  # Escape backslashes first
-            safe_desc_content = safe_desc_content.replace('"""', '\\"\\"\\"')  # Escape triple-double-quotes
+            safe_desc_content = escape_docstring_text(description)  # backslashes, triple quotes, a final quote
             writer.write_line(f'"""Alias for {safe_desc_content}"""')  # Actual generated docstring uses """
         return writer.get_code()
 
